@@ -52,7 +52,8 @@ THEOREMS = ['C16_split_flags_star', 'C16_split_flags_plus',
             'C16_unflagged_deck_no_entries',
             'C16_macrobody_flag_stops_run_t', 'C16_bc_entry_sound',
             'C16_bc_stale_kind_quirk', 'C16_bc_designates_keys',
-            'C16_aux_ids_above', 'C16_bc_designates_keys_trcl']
+            'C16_aux_ids_above', 'C16_bc_designates_keys_trcl',
+            'C16_finish_designates', 'C16_finish_sound']
 TRUSTED = [
     'hand-written model coq/C16/Model.v (modelled, tied by execution only)',
     'surfaces are abstract in the model: a descriptor class stands for '
